@@ -202,7 +202,6 @@ Proof.
     destruct (qremove n (s_q s)) eqn:Eq; cbn [qempty negb bump].
     + split; [lia|]. intros _. left; reflexivity.
     + split; [lia|]. intros ->. lia.
-  - destruct (p_alive (s_peers s p)); [injection Hacc as <- <-; split; [lia|tauto]|discriminate].
 Qed.
 
 (* ---------- channel accounting ---------- *)
@@ -637,7 +636,6 @@ Proof.
   destruct a; inv_step Hstep; try (left; exact Hacc); peer_cases Hacc;
     try (left; exact Hacc); try (left; congruence); try discriminate Hacc.
   - injection Hacc as <-. right. split; [reflexivity|]. split; [assumption|]. eexists; eassumption.
-  - match type of Hacc with (if ?b then _ else _) = _ => destruct b; discriminate Hacc end.
 Qed.
 
 (* A new observation reads the version and the lowest key of the queue at that moment. *)
@@ -645,15 +643,14 @@ Lemma watch_origin : forall s a s' p seen m, step s a = Some s' ->
   p_acc (s_peers s' p) = AWatch seen m ->
   p_acc (s_peers s p) = AWatch seen m \/
   ((a = AStart p \/ a = AWake p \/ a = ATake p) /\ seen = s_ver s' /\ m = qmin (s_q s') /\
-   s_q s' = s_q s /\ p_alive (s_peers s p) = true).
+   s_q s' = s_q s).
 Proof.
   intros s a s' p seen m Hstep Hacc.
   destruct a; inv_step Hstep; try (left; exact Hacc); peer_cases Hacc;
     try (left; exact Hacc); try (left; congruence); try discriminate Hacc.
   - injection Hacc as <- <-. right. repeat split; auto.
   - injection Hacc as <- <-. right. repeat split; auto.
-  - match type of Hacc with (if ?b then _ else _) = _ => destruct b eqn:Ea; [|discriminate Hacc] end.
-    injection Hacc as <- <-. right. repeat split; auto.
+  - injection Hacc as <- <-. right. repeat split; auto.
 Qed.
 
 (* A call enters the held list only through a successful ATake by that connection, in state AChosen n. *)
@@ -799,6 +796,6 @@ Proof.
       * cbn [s_peers set_peer]. unfold upd. rewrite Nat.eqb_refl. reflexivity.
       * exists (s_ver s). cbn [s_peers set_peer]. unfold upd. rewrite Nat.eqb_refl. cbn [p_acc with_acc]. rewrite Hmin. reflexivity.
       * exists [AWake p; AAvail p; ATake p], s', c. split; [repeat constructor; unfold acceptor_action; tauto|].
-        split; [|split; assumption]. cbn [run]. unfold step at 1. cbv zeta. rewrite Hal, Hw.
+        split; [|split; assumption]. cbn [run]. unfold step at 1. cbv zeta. rewrite Hw.
         destruct (Z.eqb_spec seen (s_ver s)); [contradiction|]. exact Hrun.
 Qed.
